@@ -143,6 +143,22 @@ func boundaryCases() []GCase {
 			return obsWith([]GRes{r, c}, nil, hist)
 		})})
 	}
+	// block keys that lack a member (or are null) decode to zero values - whatever the instance decoded before, in this
+	// round or an earlier one: one full observation first, then two whose keys have no hash / no number / are null;
+	// the block the new proposal is bound to follows from the votes of THESE values
+	for _, drop := range []string{"Hash", "Number", ""} {
+		drop := drop
+		for _, fullAt := range []int{0, 2} {
+			fullAt := fullAt
+			add(GCase{Family: "block-keys-with-missing-members", N: 4, F: 1, Seq: 14, Digest: 1, Obs: nObs(3, func(i int) GObs {
+				o := obsWith(nil, []GProp{{Kind: 1, Upk: 5300, Log: 11, Blk: 1, Hash: 1, ExtBlk: 3}}, chain(98, 100, 1))
+				if i == fullAt {
+					return o
+				}
+				return o.sparse(drop)
+			})})
+		}
+	}
 	// perform data far above what a registry accepts: three disjoint pairs of oracles vouch for ten results of 70 KB
 	// each; every observation is valid and under its size limit, all thirty results are at quorum and far below the cap
 	// of 100 - agreement is by votes, never by a byte budget
